@@ -713,10 +713,28 @@ func TestC05_Ops(t *testing.T) {
 			rt.Fatalf("HARNESS: %v", err)
 		}
 		cr := checkCase(rt, "ops", c, o)
-		sig := evmgen.Signature(nil, strings.Join(cr.outcomes, ","), evmgen.RegimeName(c.Env.PrimeTerminusNumber))
+		// signature: the distinct operation outcomes in order of first occurrence (recursion repeats
+		// the same outcomes many times), the transaction outcome and the fork regime
+		var uniq []string
+		seen := map[string]bool{}
+		for _, oc := range cr.outcomes {
+			if !seen[oc] {
+				seen[oc] = true
+				uniq = append(uniq, oc)
+			}
+		}
+		txo := "rejected"
+		if o.Res.Err == nil {
+			txo = fmt.Sprintf("status=%d,exports=%d", o.Res.Receipt.Status, len(o.Res.Receipt.OutboundEtxs))
+		}
+		sig := evmgen.Signature(nil, strings.Join(uniq, ","), txo, evmgen.RegimeName(c.Env.PrimeTerminusNumber))
 		stats.Case("ops", sig, cr.nontrivial, cr.labels...)
 		if cr.nontrivial && stats.WantSample("ops") {
-			stats.Sample("ops", map[string]any{"tx": c.Dump()["tx"], "env": c.Dump()["env"], "outcomes": cr.outcomes, "kinds": strings.Join(c.Kinds, " ")})
+			oc := cr.outcomes
+			if len(oc) > 16 {
+				oc = append(append([]string{}, oc[:16]...), fmt.Sprintf("… %d more", len(cr.outcomes)-16))
+			}
+			stats.Sample("ops", map[string]any{"tx": c.Dump()["tx"], "env": c.Dump()["env"], "outcomes": oc, "tx_outcome": txo, "kinds": strings.Join(c.Kinds, " ")})
 		}
 	})
 }
